@@ -647,10 +647,10 @@ def b_cap(case, ctx):
             if len(pl) > 1 and Mhead is not None:
                 cH = ref.Clip([t for t in Mhead["V"][Mhead["F"]]]).cut(*pl[-1])
                 pin = pin or ref.cap_boundary_pinched(cH.polys, pl[-1][0], pl[-1][1], scale)
-            if c.snapped_cut or (cH is not None and cH.snapped_cut):
-                cause = "snapped_vertex"
-            elif pin:
+            if pin:
                 cause = "pinched_section"
+            elif c.snapped_cut or (cH is not None and cH.snapped_cut):
+                cause = "snapped_vertex"
             elif len(pl) > 1 and Mhead is not None and Mhead["zero_area"]:
                 cause = "multiplane_zero_area_cap_face|" + engine
             if cause:
